@@ -309,4 +309,65 @@ theorem bridge_so_swap_xmy_ymx_zq_img (V a zs q z y x : Int) :
     so_swap_xmy_ymx_zq_img zs q z y x = (let r := (⟨.swap_xmy_ymx_zq, V, a, zs, q⟩ : C03.SymOp).onVoxel ⟨z, y, x⟩; (r.z, r.y, r.x)) := by
   unfold so_swap_xmy_ymx_zq_img; so_bridge
 
+
+/-! ## C03: the decision trees choosing the symmetry operation (cylindrical branch)
+
+`find_sym_op_bin0` / `find_sym_op_general_bin` return `new <Class>(args)`; the translator renders that as
+`(class index, view180, axial_pos_shift, z_shift, q)` (class index = position in `SO_CLASSES` of tools/c2lean.py, slots a
+class's constructor does not take are 0).  `soOf` reads such a tuple as a model `SymOp`.  The two opaque reads of the
+source are parameters: `find_transform_z(abs(segment_num), do_symmetry_shift_z ? 0 : axial_pos_num)` ↦ `Sym.transformZ …`,
+`num_planes_per_axial_pos[segment_num]` ↦ `Sym.nppa seg`. -/
+
+set_option linter.unusedSimpArgs false
+
+/-- class index (position in `SO_CLASSES` of tools/c2lean.py) → model kind -/
+def kindOfIdx (i : Int) : C03.Kind :=
+  if i = 1 then .z_shift else if i = 2 then .swap_xmx_zq else if i = 3 then .swap_xmy_yx_zq else if i = 4 then .swap_xy_yx_zq
+  else if i = 5 then .swap_xmy_yx else if i = 6 then .swap_xy_yx else if i = 7 then .swap_xmx else if i = 8 then .swap_ymy
+  else if i = 9 then .swap_zq else if i = 10 then .swap_xmx_ymy_zq else if i = 11 then .swap_xy_ymx_zq else if i = 12 then .swap_xy_ymx
+  else if i = 13 then .swap_xmy_ymx else if i = 14 then .swap_ymy_zq else if i = 15 then .swap_xmx_ymy else if i = 16 then .swap_xmy_ymx_zq
+  else .trivial
+
+def soOf (t : Int × Int × Int × Int × Int) : C03.SymOp := ⟨kindOfIdx t.1, t.2.1, t.2.2.1, t.2.2.2.1, t.2.2.2.2⟩
+
+@[simp] theorem soOf_0 (a b c d : Int) : soOf (0, a, b, c, d) = ⟨.trivial, a, b, c, d⟩ := rfl
+@[simp] theorem soOf_1 (a b c d : Int) : soOf (1, a, b, c, d) = ⟨.z_shift, a, b, c, d⟩ := rfl
+@[simp] theorem soOf_2 (a b c d : Int) : soOf (2, a, b, c, d) = ⟨.swap_xmx_zq, a, b, c, d⟩ := rfl
+@[simp] theorem soOf_3 (a b c d : Int) : soOf (3, a, b, c, d) = ⟨.swap_xmy_yx_zq, a, b, c, d⟩ := rfl
+@[simp] theorem soOf_4 (a b c d : Int) : soOf (4, a, b, c, d) = ⟨.swap_xy_yx_zq, a, b, c, d⟩ := rfl
+@[simp] theorem soOf_5 (a b c d : Int) : soOf (5, a, b, c, d) = ⟨.swap_xmy_yx, a, b, c, d⟩ := rfl
+@[simp] theorem soOf_6 (a b c d : Int) : soOf (6, a, b, c, d) = ⟨.swap_xy_yx, a, b, c, d⟩ := rfl
+@[simp] theorem soOf_7 (a b c d : Int) : soOf (7, a, b, c, d) = ⟨.swap_xmx, a, b, c, d⟩ := rfl
+@[simp] theorem soOf_8 (a b c d : Int) : soOf (8, a, b, c, d) = ⟨.swap_ymy, a, b, c, d⟩ := rfl
+@[simp] theorem soOf_9 (a b c d : Int) : soOf (9, a, b, c, d) = ⟨.swap_zq, a, b, c, d⟩ := rfl
+@[simp] theorem soOf_10 (a b c d : Int) : soOf (10, a, b, c, d) = ⟨.swap_xmx_ymy_zq, a, b, c, d⟩ := rfl
+@[simp] theorem soOf_11 (a b c d : Int) : soOf (11, a, b, c, d) = ⟨.swap_xy_ymx_zq, a, b, c, d⟩ := rfl
+@[simp] theorem soOf_12 (a b c d : Int) : soOf (12, a, b, c, d) = ⟨.swap_xy_ymx, a, b, c, d⟩ := rfl
+@[simp] theorem soOf_13 (a b c d : Int) : soOf (13, a, b, c, d) = ⟨.swap_xmy_ymx, a, b, c, d⟩ := rfl
+@[simp] theorem soOf_14 (a b c d : Int) : soOf (14, a, b, c, d) = ⟨.swap_ymy_zq, a, b, c, d⟩ := rfl
+@[simp] theorem soOf_15 (a b c d : Int) : soOf (15, a, b, c, d) = ⟨.swap_xmx_ymy, a, b, c, d⟩ := rfl
+@[simp] theorem soOf_16 (a b c d : Int) : soOf (16, a, b, c, d) = ⟨.swap_xmy_ymx_zq, a, b, c, d⟩ := rfl
+
+theorem bridge_find_sym_op_bin0 (y : C03.Sym) (seg view ax : Int) :
+    soOf (find_sym_op_bin0 y.V y.d90 y.d180 y.swapSeg y.shiftZ
+            (y.transformZ (C03.iabs seg) (if y.shiftZ = true then 0 else ax)) (y.nppa seg) seg view ax)
+      = y.symOpBin0 seg view ax := by
+  unfold find_sym_op_bin0 C03.Sym.symOpBin0 C03.Sym.mkShift C03.Sym.newOp C03.SymOp.triv
+  simp only [Id.run, pure_id]
+  cases hd90 : y.d90 <;> cases hd180 : y.d180 <;> cases hs : y.swapSeg <;> cases hz : y.shiftZ
+  all_goals simp
+  all_goals simp only [apply_ite soOf, soOf_0, soOf_1, soOf_2, soOf_3, soOf_4, soOf_5, soOf_6, soOf_7, soOf_8, soOf_9, soOf_10, soOf_11, soOf_12, soOf_13, soOf_14, soOf_15, soOf_16]
+  all_goals first | rfl | ((repeat' split) <;> first | rfl | omega | (exfalso; omega))
+
+theorem bridge_find_sym_op_general_bin (y : C03.Sym) (s seg view ax : Int) :
+    soOf (find_sym_op_general_bin y.V y.d90 y.d180 y.swapSeg y.swapS y.shiftZ
+            (y.transformZ (C03.iabs seg) (if y.shiftZ = true then 0 else ax)) (y.nppa seg) s seg view ax)
+      = y.symOpGeneral s seg view ax := by
+  unfold find_sym_op_general_bin C03.Sym.symOpGeneral C03.Sym.mkShift C03.Sym.newOp C03.SymOp.triv
+  simp only [Id.run, pure_id]
+  cases hd90 : y.d90 <;> cases hd180 : y.d180 <;> cases hs : y.swapSeg <;> cases hss : y.swapS <;> cases hz : y.shiftZ
+  all_goals simp
+  all_goals simp only [apply_ite soOf, soOf_0, soOf_1, soOf_2, soOf_3, soOf_4, soOf_5, soOf_6, soOf_7, soOf_8, soOf_9, soOf_10, soOf_11, soOf_12, soOf_13, soOf_14, soOf_15, soOf_16]
+  all_goals first | rfl | ((repeat' split) <;> first | rfl | omega | (exfalso; omega))
+
 end StirVerif.Gen
